@@ -110,7 +110,7 @@ TakePrefix(x, s, start) ==
   ELSE <<>>
 
 (* Probe data layer (harness/probes.py) *)
-PayloadHash(e) == (e.nid * 7 + (e.eps + 1) * 13 + (e.dseq + 1) * 17 + e.h) % MOD
+PayloadHash(e) == (e.nid * 7 + (e.eps + 1) * 13 + (e.dseq + 1) * 17 + e.h + 3 * (e.h % 97) + 5 * (e.dseq + 1)) % MOD   \* the last two terms: the payload's two-element leaf [h mod 97, seq + 1]
 EntryTerm(e) == (PayloadHash(e) + Max2(e.seq, -1) + 1) % MOD
 DefaultEntry(x) == [seq |-> -1, sent |-> 0, recv |-> 0, nid |-> NodeC(ConnC(x).src).nid, eps |-> -1, dseq |-> -1, h |-> 0]
 InitWin(x) == [i \in 1..ConnC(x).window |-> DefaultEntry(x)]
